@@ -351,6 +351,12 @@ impl Headers {
 
         let c = unsafe {self.custom.as_mut().unwrap_unchecked()};
 
+        /* field names are case-insensitive */
+        let name = c.keys()
+            .find(|k| unsafe {k.as_bytes().eq_ignore_ascii_case(name.as_bytes())})
+            .cloned()
+            .unwrap_or(name);
+
         match c.get_mut(&name) {
             Some(v) => unsafe {
                 v.extend_from_slice(b", ");
